@@ -105,6 +105,8 @@ class TermExec:
                 return base
             if base[0] == "rows" and len(el) >= 1 and isinstance(el[0], ast.Constant) and isinstance(el[0].value, int):
                 return base[1][el[0].value]
+            if len(el) == 1 and isinstance(el[0], ast.Slice) and el[0].step is None and (el[0].lower is None or const_value(el[0].lower)[0]) and (el[0].upper is None or const_value(el[0].upper)[0]):
+                return ("slice", base, const_value(el[0].lower)[1] if el[0].lower is not None else None, const_value(el[0].upper)[1] if el[0].upper is not None else None)
             if len(el) == 2 and _full(el[0]) and isinstance(el[1], ast.Slice) and el[1].step is None:
                 lo = const_value(el[1].lower)[1] if el[1].lower is not None and const_value(el[1].lower)[0] else None
                 hi = const_value(el[1].upper)[1] if el[1].upper is not None and const_value(el[1].upper)[0] else None
@@ -165,6 +167,9 @@ class TermExec:
             if nm in ("stack", "vstack") and args and isinstance(args[0], (ast.Tuple, ast.List)):
                 return ("rows", tuple(self.ev(x) for x in args[0].elts))
             return ("call", nm) + tuple(self.ev(a) for a in args)
+        if isinstance(e.func, ast.Name) and not e.keywords or (isinstance(e.func, ast.Name) and all(k.arg for k in e.keywords)):
+            # a call of a plain (user) function: opaque, identified by name and argument terms
+            return ("call", nm) + tuple(self.ev(a) for a in args) + tuple(("kw", k.arg, self.ev(k.value)) for k in e.keywords)
         raise Undecided(f"call {src(e)[:50]}")
 
     # ---- statements
